@@ -5,6 +5,7 @@ CONSTANTS
   QueryClasses = {"P"}
   AllowClear = FALSE
   AllowRelate = TRUE
+  AllowQueryX = FALSE
   AllowSweep = TRUE
   Hist = FALSE
   PopIdOfNone = TRUE
